@@ -24,7 +24,11 @@ def gen_spec(cs):
     s = ''
     if cs.bool(110):
         if cs.bool(150):
-            s += cs.pick(FILLS)
+            if cs.bool(40):
+                cp = cs.choice(0x110000)       # any character can be the fill
+                s += chr(cp) if not 0xD800 <= cp <= 0xDFFF else 'x'
+            else:
+                s += cs.pick(FILLS)
         s += cs.pick('<>=^')
     if cs.bool(80):
         s += cs.pick('+- ')
@@ -35,11 +39,11 @@ def gen_spec(cs):
     if cs.bool(50):
         s += '0'
     if cs.bool(150):
-        s += str(cs.pick([0, 1, 2, 3, 4, 5, 6, 7, 8, 9, 10, 11, 12, 13, 15, 16, 20, 25, 33, 40]))
+        s += str(cs.pick([0, 1, 2, 3, 4, 5, 6, 7, 8, 9, 10, 11, 12, 13, 15, 16, 20, 25, 33, 40]) if cs.bool(200) else cs.choice(1000))
     if cs.bool(70):
         s += cs.pick(',_')
     if cs.bool(90):
-        s += '.' + str(cs.pick([0, 0, 1, 1, 2, 3, 4, 5, 6, 10, 17, 20, 30]))
+        s += '.' + str(cs.pick([0, 0, 1, 1, 2, 3, 4, 5, 6, 10, 17, 20, 30]) if cs.bool(210) else cs.choice(400))
     if cs.bool(200):
         s += cs.pick(TYPES)
     # character-level mutation so that malformed specs are reached too
@@ -192,7 +196,7 @@ class C18(Property):
             value = bits(vg.gen_double(cs))
             kind = 'float'
         elif k == 2:
-            value = vg.gen_text(cs, 8, ['abc', 'éß', '中', '\U0001f600', "'\" ", '{}'])
+            value = vg.gen_text(cs, 8, ['abc', 'éß', '中', '\U0001f600', "'\" ", '{}']) if cs.bool(170) else vg.gen_text(cs, 8)
             kind = 'str'
         else:
             value = cs.bool()
